@@ -52,6 +52,13 @@ def named_convex():
             anti += [[math.cos(th), math.sin(th), -0.5], [math.cos(th + math.pi / n), math.sin(th + math.pi / n), 0.5]]
         out[f"prism{n}"] = prism
         out[f"antiprism{n}"] = anti
+    # flat and needle-like solids (faces made of several hull simplices, ill-conditioned far from the origin)
+    for n, r, h, tag in ((5, 1.0, 0.01, "flat"), (6, 1.0, 0.02, "flat"), (6, 0.01, 1.0, "needle"), (8, 0.02, 1.0, "needle")):
+        pts = []
+        for k in range(n):
+            th = 2 * math.pi * k / n
+            pts += [[r * math.cos(th), r * math.sin(th), -h / 2], [r * math.cos(th), r * math.sin(th), h / 2]]
+        out[f"{tag}_prism{n}"] = pts
     return out
 
 
@@ -80,6 +87,19 @@ def placements(seed=0):
     return [("identity", eye, (0, 0, 0)), ("offset", eye, (10.0, -7.5, 3.25)),
             ("rot", cayley(Fr(1, 2), Fr(1, 3), Fr(-1, 5)), (0, 0, 0)),
             ("rot+offset", cayley(Fr(-1, 3), Fr(2, 5), Fr(1, 7)), (-4.0, 12.5, 6.0))]
+
+
+def far_placements():
+    """rotations combined with offsets of 5..9 diameters of a unit-size shape"""
+    def cayley(a, b, c):
+        a, b, c = Fr(a), Fr(b), Fr(c)
+        k = 1 + a * a + b * b + c * c
+        return [[(1 + a * a - b * b - c * c) / k, 2 * (a * b - c) / k, 2 * (a * c + b) / k],
+                [2 * (a * b + c) / k, (1 - a * a + b * b - c * c) / k, 2 * (b * c - a) / k],
+                [2 * (a * c - b) / k, 2 * (b * c + a) / k, (1 - a * a - b * b + c * c) / k]]
+    return [("far1", cayley(Fr(1, 3), Fr(-1, 4), Fr(2, 5)), (11.3, 6.4, -15.2)),
+            ("far2", cayley(Fr(-2, 7), Fr(3, 5), Fr(1, 9)), (-9.7, 13.1, 8.8)),
+            ("far3", cayley(Fr(5, 6), Fr(1, 8), Fr(-3, 7)), (14.9, -3.3, -10.6))]
 
 
 def place(points, R, t):
